@@ -192,6 +192,14 @@ theorem murmurHash_tied (data : Bytes) (hw : WFB data) (seed : Nat) (hs : seed <
   murmur32_fn_bridge _ _ _ (by decide +kernel) (by decide +kernel) (by decide +kernel) (by decide +kernel)
     (by decide +kernel) (by decide +kernel) (by decide +kernel) data hw seed hs hl ρ h1 h2
 
+/-- `murmurHashLong(data, len(data), seed)` (behind `MurmurHashLongByte`): prelude, loop body, the
+    fall-through `switch` on `length % 8`, avalanche — is `Murmur.murmur64 data seed` = MurmurHash64A -/
+theorem murmurHashLong64_tied (data : Bytes) (hw : WFB data) (seed : Nat) (hs : seed < 4294967296)
+    (hl : data.length < 2147483648) (ρ : Env) (h1 : ρ 1 = (data.length : Int)) (h2 : ρ 2 = (seed : Int)) :
+    callLoop (dataArrs data) loop_murmurHashLong.pre loop_murmurHashLong.body loop_murmurHashLong.after 3
+      (data.length / 8) ρ = ((Murmur.murmur64 data seed : Nat) : Int) :=
+  murmur64_fn_bridge _ _ _ (by decide +kernel) (by decide +kernel) (by decide +kernel) data hw seed hs hl ρ h1 h2
+
 theorem murmur_headers_tied :
     loop_murmurHash.header = ["#3 := 0", "#3 < int(#7)", "#3++"] ∧ loop_murmurHash.loopVar = 3
     ∧ loop_murmurHash.carried = [4]
